@@ -308,6 +308,21 @@ def slot_memos(ctx, fn, ps):
     return out
 
 
+def at_construction(M, w, attr, depth=0):
+    """the writer site w of logical field `attr` runs only while objects are constructed: it sits in a constructor, in a private helper only constructors call,
+    or in a storage step (a method of a helper object such as set_x) every call site of which is a constructor, such a helper, or the property setter of `attr`
+    itself - the setter is how an assignment `obj.attr = v` is carried out, and the assignments are listed as writers in their own right"""
+    fn = w if not hasattr(w, 'fn') else w.fn
+    if fn.name == '__init__' or M.ctor_only(fn):
+        return True
+    if depth > 4 or fn.qn.endswith('@setter'):
+        return fn.qn.endswith('.%s@setter' % attr)
+    sites = M.call_sites(fn.qn)
+    if not sites:
+        return False
+    return all(c.name == '__init__' or c.qn.endswith('.%s@setter' % attr) or at_construction(M, c, attr, depth + 1) for c, n in sites)
+
+
 def uncopy(t):
     """the container a term denotes up to copying: dict(x), list(x), x.copy(), copy.copy(x) hold what x holds"""
     while t is not None and t[0] == 'call' and t[1] in (('ext', 'COPY'), ('ext', 'DICT'), ('ext', 'LIST')) and len(t[2]) == 1 and not t[3]:
